@@ -246,7 +246,7 @@ class SymbolGraph(metaclass=SingletonMeta):
         for source, target, relation in list(
             self._instance_graph.in_edges(index)
         ) + list(self._instance_graph.out_edges(index)):
-            self._relation_index.get(relation.wrapped_field, set()).discard(
+            self._relation_index.get(self._indexed_field(relation), set()).discard(
                 (source, target)
             )
         self._instance_graph.remove_node(index)
@@ -310,9 +310,7 @@ class SymbolGraph(metaclass=SingletonMeta):
         self._instance_graph.add_edge(
             relation.source.index, relation.target.index, relation
         )
-        if relation.wrapped_field not in self._relation_index:
-            self._relation_index[relation.wrapped_field] = set()
-        self._relation_index[relation.wrapped_field].add(
+        self._relation_index.setdefault(self._indexed_field(relation), set()).add(
             (relation.source.index, relation.target.index)
         )
         return True
@@ -321,7 +319,23 @@ class SymbolGraph(metaclass=SingletonMeta):
         return (
             relation.source.index,
             relation.target.index,
-        ) in self._relation_index.get(relation.wrapped_field, set())
+        ) in self._relation_index.get(self._indexed_field(relation), set())
+
+    @staticmethod
+    def _indexed_field(relation: PredicateClassRelation) -> WrappedField:
+        """
+        The field under which a relation is looked up in the relation index.
+
+        The class diagram has a field of its own for every class that inherits a managed field (``Student.member_of``
+        for ``Person.member_of``), and inference finds the field of a relation there, while an assignment takes it from
+        the descriptor. Both speak about the same field of the same instance, so a relation is filed under the field of
+        the descriptor that manages it: asserting what was inferred before (or the other way round) is not a new
+        relation.
+        """
+        descriptor = relation.wrapped_field.property_descriptor
+        if descriptor is None:
+            return relation.wrapped_field
+        return descriptor.wrapped_field
 
     def relations(self) -> Iterable[PredicateClassRelation]:
         yield from self._instance_graph.edges()
